@@ -1358,12 +1358,88 @@ class Fivecells(Base):
         return And(cs)
 
 
+class Shakashaka(Base):
+    """white cells hold a black right triangle (1-4: right angle at the top-left, bottom-left, bottom-right, top-right corner) or
+    stay empty (0); clue cells are black, a number counts the triangles among the four neighbours; every white area is a
+    rectangle (upright or at 45 degrees).  The last rule is written locally and without auxiliaries: cut every cell into its
+    four quarter triangles (N, E, S, W); around each lattice point eight 45-degree sectors meet; every maximal cyclic run of
+    white sectors must span 90 or 180 degrees or the full turn.  (A region all of whose boundary corners are convex right angles
+    has total turning 360 degrees with exactly four corners - a rectangle; a hole or a notch needs a reflex corner, a slanted
+    edge ending on a wall a 45 or 135 degree one.)"""
+    module, fn = "shakashaka", "solve_shakashaka"
+
+    def instances(self, tier, rng):
+        out = []
+        for (h, w) in shapes(6 if tier == "quick" else 9):
+            out.append({"tag": "%dx%d/open" % (h, w), "h": h, "w": w, "problem": [[None] * w for _ in range(h)]})
+            for k in range(8 if tier == "quick" else 40):
+                out.append({"tag": "%dx%d/r%d" % (h, w, k), "h": h, "w": w,
+                            "problem": rand_layout(rng, h, w, [-1, -1, -1, 0, 1, 2, 3, 4], rng.choice([0.15, 0.3, 0.5]))})
+        for (h, w, tag, p) in single_clue_layouts([(1, 3), (3, 1), (2, 3), (3, 2)] if tier == "quick" else [(1, 3), (3, 1), (2, 3), (3, 2), (2, 4), (4, 2), (3, 3)],
+                                                  [-1, 0, 1, 2, 3, 4], None, 0, 0):
+            out.append({"tag": "%dx%d/%s" % (h, w, tag), "h": h, "w": w, "problem": p})
+        # black blocks wrapped by white cells on 4x4 (and 4x5 / 5x5 in the thorough tier): a chain of slanted edges can close
+        # around a block only from these sizes on
+        big = [(4, 4)] if tier == "quick" else [(4, 4), (4, 5), (5, 4), (5, 5)]
+        for (h, w) in big:
+            out.append({"tag": "%dx%d/open" % (h, w), "h": h, "w": w, "problem": [[None] * w for _ in range(h)]})
+            for (bh, bw) in ((1, 1), (1, 2), (2, 1), (2, 2)):
+                for y0 in range(1, h - bh):
+                    for x0 in range(1, w - bw):
+                        for corners in (False, True):
+                            p = [[None] * w for _ in range(h)]
+                            for y in range(y0, y0 + bh):
+                                for x in range(x0, x0 + bw):
+                                    p[y][x] = -1
+                            if corners:
+                                for (y, x) in ((0, 0), (0, w - 1), (h - 1, 0), (h - 1, w - 1)):
+                                    p[y][x] = -1
+                            out.append({"tag": "%dx%d/block%dx%d@%d,%d%s" % (h, w, bh, bw, y0, x0, "+corners" if corners else ""), "h": h, "w": w, "problem": p})
+            for k in range(6 if tier == "quick" else 30):
+                out.append({"tag": "%dx%d/r%d" % (h, w, k), "h": h, "w": w,
+                            "problem": rand_layout(rng, h, w, [-1, -1, -1, 0, 1, 2, 3, 4], rng.choice([0.15, 0.3]))})
+        return out
+
+    def call(self, mod, d):
+        return mod.solve_shakashaka(d["h"], d["w"], d["problem"])
+
+    WHITE_QUARTER = {"N": (0, 2, 3), "E": (0, 1, 2), "S": (0, 1, 4), "W": (0, 3, 4)}
+
+    def rule(self, d, ret, env):
+        h, w = d["h"], d["w"]
+        a = Grid(ret[1], env, h, w)
+        p = d["problem"]
+        cs = []
+        for y in range(h):
+            for x in range(w):
+                cs.append(z3.And(a(y, x) >= 0, a(y, x) <= 4))
+                if p[y][x] is not None:
+                    cs.append(a(y, x) == 0)
+                    if p[y][x] >= 0:
+                        cs.append(count(a(*q) != 0 for q in a.nb4(y, x)) == p[y][x])
+
+        def white(y, x, quarter):
+            if not a.inside(y, x) or p[y][x] is not None:
+                return F
+            return Or([a(y, x) == t for t in self.WHITE_QUARTER[quarter]])
+        for y in range(h + 1):
+            for x in range(w + 1):
+                # clockwise from north: upper-right cell (its W, S quarters), lower-right (N, W), lower-left (E, N), upper-left (S, E)
+                o = [white(y - 1, x, "W"), white(y - 1, x, "S"), white(y, x, "N"), white(y, x, "W"),
+                     white(y, x - 1, "E"), white(y, x - 1, "N"), white(y - 1, x - 1, "S"), white(y - 1, x - 1, "E")]
+                for i in range(8):
+                    g = lambda k: o[(i + k) % 8]     # noqa: E731
+                    start = z3.And(g(0), z3.Not(g(-1)))
+                    ok = Or([z3.And(g(1), z3.Not(g(2))), z3.And(g(1), g(2), g(3), z3.Not(g(4)))])
+                    cs.append(z3.Implies(start, ok))
+        return And(cs)
+
+
 ALL = [Sudoku(), Slitherlink(), Masyu(), Yajilin(), Nurikabe(), Heyawake(), Akari(), Norinori(), StarBattle(), Fillomino(), Nurimisaki(),
-       Yinyang(), Creek(), Gokigen(), Aquarium(), Building(), Doppelblock(), Putteria(), Geradeweg(), Compass(), Lits(), CastleWall(), View(), Fivecells()]
+       Yinyang(), Creek(), Gokigen(), Aquarium(), Building(), Doppelblock(), Putteria(), Geradeweg(), Compass(), Lits(), CastleWall(), View(), Fivecells(), Shakashaka()]
 BY_NAME = {s.module: s for s in ALL}
 NOT_COVERED = {
     "simpleloop": "its `pivot` parameter is a generator device with no published rule",
-    "shakashaka": "no rule specification written",
 }
 
 
@@ -1394,6 +1470,8 @@ def _blank_ret(sp, d, s):
         return (None, s.int_array((d["h"], d["w"]), 0, len(d["problem"]) - 1))
     if m == "star_battle":
         return (None, s.bool_array((d["n"], d["n"])))
+    if m == "shakashaka":
+        return (None, s.int_array((d["h"], d["w"]), 0, 4))
     return (None, s.bool_array((d["h"], d["w"])))
 
 
